@@ -126,11 +126,14 @@ Inductive su_dec :=
 
 Inductive su_exit :=
 | SU_bad_metadata                 (* l.321-343 undecodable request metadata: error reply, return BEFORE Begin *)
+| SU_undispatched                 (* serve l.279-283: the connection ends while the request waits for a free worker
+                                     (all 8 busy): the read loop returns, the request never reaches processUnaryRpc *)
 | SU_run (d : su_dec) (r : res).  (* handler ran and returned r (DecErr forces r = RErr) *)
 
 Definition su_events (x : su_exit) : list sev :=
   match x with
   | SU_bad_metadata => []
+  | SU_undispatched => []
   | SU_run d r =>
       (* l.349 StatsStartServerRPC(isClient = false): TagRPC, Begin, InHeader *)
       [TagRPC; Begin; InHeader] ++
